@@ -15,5 +15,5 @@ rm -f /tmp/sany.$$
 cd harness
 [ -f Cargo.lock ] || cp /repo/Cargo.lock .
 cargo build --offline -q
-cargo build --offline -q --release -p h-topology
+cargo build --offline -q --release -p h-topology -p h-seglog
 echo "setup ok"
